@@ -158,7 +158,7 @@ class TracerScenario:
         self.cache_hit = cache_hit
         mod = fi.module
         inline = {f.fq for f in mod.functions.values() if f.qualname.split(".")[-1] not in TRACER_INLINE_STOP}
-        self.ri = RepoInterp(repo, fi, oracle=oracle, inline=inline, may_fork=may_fork, call_hook=self.call_hook)
+        self.ri = RepoInterp(repo, fi, oracle=oracle, inline=inline, may_fork=may_fork, call_hook=self.call_hook, heap=True)
         self.ri.on_attr = self._on_attr  # type: ignore[method-assign]
         self.ri.interp.on_attr = self._on_attr
         base_compare = self.ri.interp._compare
@@ -184,10 +184,37 @@ class TracerScenario:
         self.ri.on_subscript = on_subscript  # type: ignore[method-assign]
         self.ri.interp.on_subscript = on_subscript
 
+    KNOWN_ATTRS = {"traces", "cache", "logger", "sample_rate", "should_trace", "max_typed_dict_size"}
+
+    def _extra_containers(self) -> Dict[str, ast.AST]:
+        """Attributes other than the modelled ones that __init__ initialises to an empty container
+        (e.g. a cache somebody added): they get a real heap object that lives as long as the tracer."""
+        init = self.repo.method(self.cls, "__init__")
+        out: Dict[str, ast.AST] = {}
+        if init is None:
+            return out
+        from .common import _is_mutable_ctor
+        for x in ast.walk(init.node):
+            tgt = val = None
+            if isinstance(x, ast.Assign) and len(x.targets) == 1:
+                tgt, val = x.targets[0], x.value
+            elif isinstance(x, ast.AnnAssign) and x.value is not None:
+                tgt, val = x.target, x.value
+            if isinstance(tgt, ast.Attribute) and isinstance(tgt.value, ast.Name) and tgt.value.id == "self" and tgt.attr not in self.KNOWN_ATTRS \
+                    and val is not None and _is_mutable_ctor(val):
+                out[tgt.attr] = val
+        return out
+
     def _on_attr(self, obj: V, attr: str, node: ast.AST, st: State) -> Optional[V]:
         if isinstance(obj, S) and obj.name == "self":
             if attr in self.attrs:
                 return self.attrs[attr]
+            extra = self._extra_containers()
+            if attr in extra and self.ri.heap:
+                key = f"__global__:self.{attr}"
+                if key not in st.env:
+                    st.env[key] = self.ri.interp.eval(extra[attr], st)
+                return st.env[key]
             return S("self." + attr)
         return RepoInterp.on_attr(self.ri, obj, attr, node, st)
 
@@ -223,6 +250,8 @@ class TracerScenario:
                 st.effects.append(("get_type", args[0] if args else U("?"), mt))
                 return R("typeof", of=args[0] if args else U("?"))
             if callee.cls is not None and callee.cls.name == "CallTrace" and tail == "__init__":
+                args = [st.freeze(a) for a in args]
+                kwargs = {k: st.freeze(v) for k, v in kwargs.items()}
                 st.effects.append(("CallTrace", tuple(args), tuple(sorted(kwargs.items()))))
                 return R("trace", func=args[0] if args else kwargs.get("func", U("?")),
                          arg_types=args[1] if len(args) > 1 else kwargs.get("arg_types", U("?")), new=K(True))
@@ -236,10 +265,10 @@ class TracerScenario:
             return U("draw")
         return None
 
-    def run(self, env: Dict[str, V]) -> List[State]:
+    def run(self, env: Dict[str, V], carry: Optional[State] = None) -> List[State]:
         e = {"self": S("self")}
         e.update(env)
-        return self.ri.run(e)
+        return self.ri.run(e, carry=carry)
 
 
 RELEVANT = ("setattr", "setitem", "delitem", "logger.", "trace.", "get_type", "draw", "CallTrace", "get_func", "KeyError", "IndexError", "del")
